@@ -113,7 +113,7 @@ def params_from_cmd(config: Params) -> None:
                 )
             else:
                 for vm_name in available_vms:
-                    if re.match(f"(only|no)_{vm_name}", key):
+                    if re.match(f"(only|no)_{vm_name}$", key):
                         # escape defaults for this vm and use the command line
                         use_vms_default[vm_name] = False
                         # main vm restriction part
